@@ -17,7 +17,7 @@ class Untranslatable(Exception):
 
 
 KNOWN_ENUMS = {"Option": ["None", "Some"], "Result": ["Ok", "Err"], "ControlFlow": ["Continue", "Break"], "IpAddr": ["V4", "V6"], "SocketAddr": ["V4", "V6"],
-               "Entry": ["Occupied", "Vacant"], "RustcEntry": ["Occupied", "Vacant"], "Ordering": ["Less", "Equal", "Greater"], "Bound": ["Included", "Excluded", "Unbounded"]}
+               "Entry": ["Occupied", "Vacant"], "RustcEntry": ["Occupied", "Vacant"], "Ordering": ["Less", "Equal", "Greater"], "Bound": ["Included", "Excluded", "Unbounded"], "Poll": ["Ready", "Pending"]}
 
 
 # ------------------------------------------------------------------------------------------------
@@ -1360,7 +1360,7 @@ def scan_enums(src_root):
             if not fn.endswith(".rs"):
                 continue
             text = open(os.path.join(d, fn)).read()
-            for m in re.finditer(r"\benum (\w+)\s*\{", text):
+            for m in re.finditer(r"\benum (\w+)(?:<[^>{;]*>)?\s*\{", text):
                 i = m.end()
                 depth, j = 1, i
                 while depth and j < len(text):
